@@ -145,6 +145,27 @@ def check_rand(recipe) -> list[Fail]:
             obj.dump_mol2(s)
             if s.getvalue() != obj.dumps_mol2():
                 fails.append(Fail("Structure:dump-vs-dumps-differ", ""))
+    elif kind == "Substructure":
+        # a view over a subset of the atoms, in an order of its own: what is written is the VIEW
+        parent = chem.build_molecule(r, ml.Molecule)
+        n = parent.n_atoms
+        idx = list(dict.fromkeys(i % n for i in recipe["sub"])) if n else []
+        if not idx:
+            return []
+        sub = ml.chem.Substructure(parent, idx)
+        exp = ml.Structure([a.evolve() for a in sub.atoms], name="unknown", coords=np.array(parent.coords[idx]))
+        pos = {id(a): k for k, a in enumerate(sub.atoms)}
+        for b in sub.bonds:
+            exp.connect(pos[id(b.a1)], pos[id(b.a2)], btype=b.btype)
+        from vf.core import exc_sig
+        try:
+            t1 = sub.dumps_mol2()
+            back = ml.Structure.loads_mol2(t1)
+        except Exception as e:
+            return [Fail(f"Substructure:roundtrip-raises:{exc_sig(e) or type(e).__name__}", f"view {idx} of {n} atoms: {e!r}"[:300])]
+        compare(exp, back, "Substructure", fails, f"view {idx} of {n} atoms")
+        if not fails and back.dumps_mol2() != t1:
+            fails.append(Fail("Substructure:text-not-a-fixed-point", ""))
     elif kind == "ConformerEnsemble":
         ens = chem.build_ensemble(r)
         if ens.n_conformers < 1:
@@ -182,6 +203,12 @@ def check_rand(recipe) -> list[Fail]:
 def classify_rand(recipe):
     r = recipe["mol"]
     labels = ["kind=" + recipe["kind"], "entry=" + recipe.get("entry", "loads")]
+    if recipe["kind"] == "Substructure":
+        n_ = len(r["atoms"])
+        idx_ = list(dict.fromkeys(i % n_ for i in recipe["sub"])) if n_ else []
+        inside = sum(1 for b in r["bonds"] if b["a"] in idx_ and b["b"] in idx_)
+        # non-trivial: the view has a bond and is not simply the leading atoms of the parent in parent order
+        return len(idx_) >= 2 and inside >= 1 and idx_ != list(range(len(idx_))), labels
     nt = len(r["atoms"]) >= 2 and len(r["bonds"]) >= 1 and (
         any(a["atype"] != 1 or a["geom"] != 0 for a in r["atoms"]) or any(b["btype"] != 1 for b in r["bonds"]) or any(q != 0 for q in r["charges"]))
     if any(x != x for c in r["coords"] for x in c):
@@ -214,6 +241,7 @@ def strat_rand(tier):
     molr = chem.molecule_recipe(max_atoms=30 if big else 12, max_bonds=40 if big else 16, attribs=False, mol2_safe=True).map(_mol2ify)
     ensr = chem.ensemble_recipe(max_atoms=8, max_bonds=10, max_conf=4, attribs=False, mol2_safe=True).filter(lambda r: len(r["confs"]) >= 1).map(_mol2ify)
     return st.one_of(
+        st.fixed_dictionaries({"kind": st.just("Substructure"), "mol": molr, "sub": st.lists(st.integers(0, 60), min_size=1, max_size=8)}),
         st.fixed_dictionaries({"kind": st.sampled_from(["Molecule", "Molecule", "Structure"]), "mol": molr, "entry": st.sampled_from(["loads", "loads", "loads_all", "load_stream"])}),
         st.fixed_dictionaries({"kind": st.just("ConformerEnsemble"), "mol": ensr}),
     )
@@ -284,6 +312,6 @@ LEGS = [
         rule="every member of Element x AtomType x AtomGeom enumerated from the tree (119 x 21 x 18 = 44 982 on this tree) as a one-atom Molecule, every BondType on a two-atom Molecule and Structure: "
              "write, read (must be accepted), element equal, second write textually equal; evaluations = combinations; each distinct combination counts as non-trivial"),
     Leg("rand", check_rand, classify_rand, strategy=strat_rand, n={"quick": 2500, "thorough": 50000}, shards={"quick": 16, "thorough": 32},
-        rule="generated Molecule / Structure / ConformerEnsemble (>=1 conformer), whitespace-free labels or None/'', all enum members, |x|<1e5 plus NaN, charges |q|<=3, all bond types; "
+        rule="generated Molecule / Structure / Substructure view (subset of the atoms in its own order) / ConformerEnsemble (>=1 conformer), whitespace-free labels or None/'', all enum members, |x|<1e5 plus NaN, charges |q|<=3, all bond types; "
              "entry points loads / loads_all / load(stream) / ConformerEnsemble.loads_mol2; non-trivial = >=2 atoms, >=1 bond and a non-default atom/bond type or non-zero charge"),
 ]
